@@ -369,6 +369,46 @@ func genC02(o *Out, rng *rand.Rand, tier string) {
 			emit(m, "single-option")
 		}
 	}
+	// numeric fields swept densely: a conversion that is wrong for a few per cent of the values (floating point, a
+	// narrowing cast, a sign) is met for certain, not by luck
+	{
+		step16, nd := 37, 400
+		if tier == "thorough" {
+			step16, nd = 1, 6000
+		}
+		one := func(o dhcpv6.Option) {
+			m := &dhcpv6.Message{MessageType: dhcpv6.MessageTypeRenew}
+			copy(m.TransactionID[:], randBytes(rng, 3))
+			m.AddOption(o)
+			emit(m, "numeric-sweep")
+		}
+		for u := 0; u < 65536; u += step16 {
+			one(dhcpv6.OptElapsedTime(time.Duration(u) * 10 * time.Millisecond))
+			one(dhcpv6.OptRelayPort(uint16(u)))
+			one(dhcpv6.OptClientArchType(iana.Arch(u)))
+			one(dhcpv6.OptRequestedOption(dhcpv6.OptionCode(u), dhcpv6.OptionCode(65535-u)))
+			one(&dhcpv6.OptStatusCode{StatusCode: iana.StatusCode(u)})
+		}
+		for _, u := range []int{65535, 65534, 32768, 32767, 256, 255} {
+			one(dhcpv6.OptElapsedTime(time.Duration(u) * 10 * time.Millisecond))
+		}
+		for k := 0; k < nd; k++ { // 32-bit second counts: powers of two and their neighbours, and random ones
+			secs := uint32(1)<<uint(k%32) + uint32(k%3) - 1
+			if k%2 == 1 {
+				secs = rng.Uint32()
+			}
+			d := time.Duration(secs) * time.Second
+			ia := &dhcpv6.OptIANA{T1: d, T2: time.Duration(^secs) * time.Second}
+			ia.Options.Options = dhcpv6.Options{&dhcpv6.OptIAAddress{IPv6Addr: net.ParseIP("2001:db8::7"), PreferredLifetime: d, ValidLifetime: time.Duration(secs/2) * time.Second}}
+			one(ia)
+			one(dhcpv6.OptInformationRefreshTime(d))
+			one(&dhcpv6.OptIAPrefix{PreferredLifetime: d, ValidLifetime: d, Prefix: &net.IPNet{IP: net.ParseIP("2001:db8::"), Mask: net.CIDRMask(1+k%128, 128)}}) // (a /0 prefix carries no address: C06)
+		}
+		for u := 0; u < 256; u++ { // octet-wide fields
+			one(&dhcpv6.OptNetworkInterfaceID{Typ: dhcpv6.NetworkInterfaceType(u), Major: uint8(255 - u), Minor: uint8(u ^ 0x55)})
+			one(&dhcpv6.OptFQDN{Flags: uint8(u), DomainName: &rfc1035label.Labels{Labels: []string{"h.example"}}})
+		}
+	}
 	// every variable-length field of every option type at the sizes where a length check could sit
 	for _, c := range v6Known {
 		for _, sz := range []int{118, 120, 122, 124, 126, 127, 128, 129, 130, 254, 255, 256, 257, 1000} {
